@@ -94,20 +94,23 @@ class Sequencer(object):
 
         The object should have a notify(msg_type, param_dict) function.
         """
-        if listener not in self.listeners:
+        # (the same object, not an equal one: two recorders that are both
+        # empty lists are two listeners)
+        if not any(l is listener for l in self.listeners):
             self.listeners.append(listener)
 
     def detach(self, listener):
         """Detach a listening object so that it won't receive any events
         anymore."""
-        if listener in self.listeners:
-            self.listeners.remove(listener)
+        self.listeners[:] = [l for l in self.listeners if l is not listener]
 
     def notify_listeners(self, msg_type, params):
         """Send a message to all the observers."""
-        # (a listener may detach itself while it is being notified)
+        # (a listener may detach itself, or another one, while it is being
+        # notified: nobody is skipped, and nobody hears after being detached)
         for c in list(self.listeners):
-            c.notify(msg_type, params)
+            if any(l is c for l in self.listeners):
+                c.notify(msg_type, params)
 
     def set_instrument(self, channel, instr, bank=0):
         """Set the channel to the instrument _instr_."""
